@@ -65,6 +65,9 @@ ConfFF(op, a, o) ==
     [] op = "ff.initial" -> ValIs(o, FInitial(a.a))
     [] op = "ff.to_initial" -> ValIs(o, FToInitial(a.f))
     [] op = "ff.terminal" -> ValIs(o, FTerminal(a.a))
+    \* the initial object and the monoidal unit of finite functions are the empty set
+    [] op = "ff.initial_object" -> ValIs(o, 0)
+    [] op = "ff.unit" -> ValIs(o, 0)
     [] op = "ff.constant" -> ValIs(o, FConstant(a.a, a.x, a.b))
     [] op = "ff.inj0" -> ValIs(o, FInj0(a.a, a.b))
     [] op = "ff.inj1" -> ValIs(o, FInj1(a.a, a.b))
@@ -449,6 +452,7 @@ ConfLax(op, st, a, o) ==
     [] op = "lax.roundtrip_strict" -> ValIs(o, a.f)
     [] op = "lax.roundtrip_lax" -> IF LaxIsStrict(pre) THEN ValIs(o, pre) ELSE IsVal(o) /\ LaxIso(o.val, Strictify(pre))
     [] op = "lax.empty" -> ValIs(o, LaxEmpty)
+    [] op = "lax.unit" -> ValIs(o, <<>>)
     [] op = "lax.tensor" \/ op = "lax.tensor_bitor" -> ValIs(o, LTensor(a.f, a.g))
     [] op = "lax.tensor3" -> /\ IsVal(o) /\ o.val.lhs = o.val.rhs /\ o.val.lhs = LTensor(LTensor(a.f, a.g), a.h)
                              /\ o.val.ul = a.f /\ o.val.ur = a.f
@@ -480,14 +484,14 @@ ConfLax(op, st, a, o) ==
 
 (* =========================================================== dispatch *)
 ArrOps == {"arr.add", "arr.add_const", "arr.arange", "arr.argsort", "arr.bincount", "arr.concatenate", "arr.concatenate_s", "arr.connected_components", "arr.cumulative_sum", "arr.empty", "arr.fill", "arr.fill_s", "arr.from_slice", "arr.gather", "arr.gather_s", "arr.get", "arr.get_range", "arr.get_range_s", "arr.is_empty", "arr.len", "arr.max", "arr.mul_constant_add", "arr.quot_rem", "arr.repeat", "arr.scatter", "arr.scatter_assign", "arr.scatter_assign_constant", "arr.scatter_s", "arr.scatter_sub_assign", "arr.segmented_arange", "arr.segmented_sum", "arr.set_range", "arr.sort_by", "arr.sparse_bincount", "arr.sub", "arr.sum", "arr.to_range", "arr.zero"}
-FFOps == {"sf.coproduct", "sf.add", "sf.singleton", "sf.zero", "sf.len", "sfa.compose", "sfa.source", "sfa.target", "sfa.identity", "ff.coequalizer", "ff.coequalizer_universal", "ff.compose", "ff.compose_semifinite", "ff.compose_shr", "ff.constant", "ff.coproduct", "ff.coproduct_add", "ff.cumulative_sum", "ff.eq", "ff.identity", "ff.initial", "ff.inj0", "ff.inj1", "ff.inject0", "ff.inject1", "ff.injections", "ff.is_injective", "ff.new", "ff.source", "ff.target", "ff.tensor", "ff.tensor_bitor", "ff.terminal", "ff.to_initial", "ff.transpose", "ff.twist", "ff.universal_labels"}
+FFOps == {"sf.coproduct", "sf.add", "sf.singleton", "sf.zero", "sf.len", "sfa.compose", "sfa.source", "sfa.target", "sfa.identity", "ff.coequalizer", "ff.coequalizer_universal", "ff.compose", "ff.compose_semifinite", "ff.compose_shr", "ff.constant", "ff.coproduct", "ff.coproduct_add", "ff.cumulative_sum", "ff.eq", "ff.identity", "ff.initial", "ff.initial_object", "ff.unit", "ff.inj0", "ff.inj1", "ff.inject0", "ff.inject1", "ff.injections", "ff.is_injective", "ff.new", "ff.source", "ff.target", "ff.tensor", "ff.tensor_bitor", "ff.terminal", "ff.to_initial", "ff.transpose", "ff.twist", "ff.universal_labels"}
 ICOps == {"ic.coproduct_ff", "ic.coproduct_sf", "ic.elements_ff", "ic.elements_sf", "ic.flatmap", "ic.flatmap_sources_ff", "ic.flatmap_sources_sf", "ic.from_semifinite_ff", "ic.from_semifinite_sf", "ic.indexed_values_ff", "ic.indexed_values_sf", "ic.initial", "ic.iter_ff", "ic.iter_sf", "ic.iter_slices", "ic.len_ff", "ic.map_indexes_ff", "ic.map_indexes_sf", "ic.map_semifinite", "ic.map_values", "ic.new_ff", "ic.new_sf", "ic.singleton_ff", "ic.singleton_sf", "ic.tensor", "ops.iter", "ops.len", "ops.new", "ops.singleton"}
 StrictOps == {"hyper.coequalize_vertices", "hyper.coproduct", "hyper.coproduct_add", "hyper.discrete", "hyper.empty", "hyper.in_degree", "hyper.is_acyclic", "hyper.is_discrete", "hyper.new", "hyper.out_degree", "hyper.tensor_operations", "law.assoc", "law.dagger_compose", "law.dagger_tensor", "law.hexagon", "law.interchange", "law.spider_fusion", "law.tensor_assoc", "law.tensor_unit", "law.twist_inverse", "law.twist_natural", "law.unit", "strict.compose", "strict.compose_shr", "strict.dagger", "strict.half_spider", "strict.identity", "strict.is_acyclic", "strict.is_monogamous", "strict.new", "strict.singleton", "strict.source", "strict.spider", "strict.target", "strict.tensor", "strict.tensor_bitor", "strict.tensor_operations", "strict.twist", "strict.unit"}
 GraphOps == {"arrow.is_convex_subgraph", "arrow.is_monomorphism", "arrow.new", "hook.converse", "hook.indegree", "hook.kahn", "hook.node_adjacency", "hook.operation_adjacency", "strict.eval", "strict.layer", "strict.layered_operations"}
 FunctorOps == {"functor.identity", "functor.laws", "functor.map_arrow", "functor.map_object", "laxf.dyn_map_arrow", "laxf.identity", "laxf.map_arrow_witness", "laxf.try_define_map_arrow"}
 OpticOps == {"laxf.optic_map_adapted", "laxf.optic_map_arrow", "optic.eval_adapted", "optic.laws", "optic.map_adapted", "optic.map_arrow"}
 VarOps == {"var.script_eval", "var.forget", "var.forget_eval", "var.forget_monogamous", "var.script"}
-LaxOps == {"lax.reset", "lax.set_interfaces", "lax.add_edge_source", "lax.add_edge_target", "lax.append", "lax.compose", "lax.compose_shr", "lax.dagger", "lax.delete_edges", "lax.delete_nodes", "lax.empty", "lax.from_strict", "lax.h.coequalizer", "lax.h.coproduct_assign", "lax.h.delete_edge", "lax.h.delete_nodes", "lax.h.delete_nodes_witness", "lax.h.quotient", "lax.h.to_hypergraph", "lax.half_spider", "lax.identity", "lax.is_strict", "lax.lax_compose", "lax.map_edges", "lax.map_nodes", "lax.new_edge", "lax.new_node", "lax.new_operation", "lax.quotient", "lax.quotient_witness", "lax.roundtrip_lax", "lax.roundtrip_strict", "lax.serde_roundtrip", "lax.singleton", "lax.source", "lax.spider", "lax.target", "lax.tensor", "lax.tensor3", "lax.tensor_assign", "lax.tensor_bitor", "lax.to_open_hypergraph", "lax.to_strict", "lax.twist", "lax.unify", "lax.with_edges", "lax.with_nodes"}
+LaxOps == {"lax.reset", "lax.set_interfaces", "lax.add_edge_source", "lax.add_edge_target", "lax.append", "lax.compose", "lax.compose_shr", "lax.dagger", "lax.delete_edges", "lax.delete_nodes", "lax.empty", "lax.unit", "lax.from_strict", "lax.h.coequalizer", "lax.h.coproduct_assign", "lax.h.delete_edge", "lax.h.delete_nodes", "lax.h.delete_nodes_witness", "lax.h.quotient", "lax.h.to_hypergraph", "lax.half_spider", "lax.identity", "lax.is_strict", "lax.lax_compose", "lax.map_edges", "lax.map_nodes", "lax.new_edge", "lax.new_node", "lax.new_operation", "lax.quotient", "lax.quotient_witness", "lax.roundtrip_lax", "lax.roundtrip_strict", "lax.serde_roundtrip", "lax.singleton", "lax.source", "lax.spider", "lax.target", "lax.tensor", "lax.tensor3", "lax.tensor_assign", "lax.tensor_bitor", "lax.to_open_hypergraph", "lax.to_strict", "lax.twist", "lax.unify", "lax.with_edges", "lax.with_nodes"}
 ConfEvent(st, ev) ==
   LET op == ev.op  a == ev.args  o == ev.obs IN
   CASE op \in ArrOps -> ConfArr(op, a, o)
